@@ -88,6 +88,22 @@ fn run_remote_leg(c: &PipeCase, r: &RemoteLeg, ctx: &mut Ctx) -> Result<(), Viol
         let mut got: Vec<(u32, u32, u64, u64)> = view.values().cloned().collect();
         want.sort();
         got.sort();
+        // every lifecycle of the final table must have reached the client in its final state ...
+        let mut rest = got.clone();
+        let mut all_present = true;
+        for w in &want {
+            match rest.iter().position(|g| g == w) {
+                Some(p) => {
+                    rest.remove(p);
+                }
+                None => all_present = false,
+            }
+        }
+        if all_present && !rest.is_empty() {
+            // ... and nothing else: a lifecycle that was published, sent, and merged away afterwards is never
+            // withdrawn (the update protocol has no removal), so the client keeps listing it
+            viol!("remote-client-keeps-merged-lifecycle", "remote.rs pipeline (sort={}): the client was sent lifecycle(s) {:?} (ecu, msgs, start, end) which were merged away later; the final table is {:?} but nothing tells the client to drop them", r.sort, rest, want);
+        }
         if got != want {
             viol!("remote-lifecycle-updates-stale", "remote.rs pipeline (sort={}, collect={}): the lifecycle table a client accumulates from the server's updates (ecu, msgs, start, end) {:?} differs from the table of the unbounded reference run {:?}", r.sort, r.collect, got, want);
         }
@@ -323,6 +339,10 @@ impl Check for C13 {
         match c.pipe.consumer_drop_after {
             None => {
                 if !sorted {
+                    // absolute, not only relative to the reference: an unsorted pipeline never reorders
+                    if let Some(w) = got_c.windows(2).find(|w| w[0].index >= w[1].index) {
+                        viol!("pipeline-reordered", "unsorted pipeline delivered message {} before message {}", w[0].index, w[1].index);
+                    }
                     if got_c.len() != ref_c.len() {
                         viol!("pipeline-count", "bounded pipeline delivered {} messages, unbounded reference {}", got_c.len(), ref_c.len());
                     }
@@ -403,6 +423,9 @@ impl Check for C13 {
         v
     }
     fn finding_key(_c: &PipeCase, v: &Violation) -> Option<String> {
+        if v.class == "remote-client-keeps-merged-lifecycle" {
+            return Some("C13-remote-client-keeps-merged-lifecycle".into());
+        }
         crate::lc::lc_finding_key(v)
     }
     fn rule() -> &'static str {
